@@ -6,6 +6,7 @@ import (
 	"bufio"
 	"fmt"
 	"io"
+	"os"
 	"os/exec"
 	"strconv"
 	"strings"
@@ -243,7 +244,11 @@ func (s *Solver) Check(extra []*Term, vars []*Term) (res string, model map[strin
 		s.Stats.Errors++
 	}
 	s.send("(pop 1)\n")
-	s.Stats.Time += time.Since(start)
+	d := time.Since(start)
+	s.Stats.Time += d
+	if d > 3*time.Second && os.Getenv("VP_SLOW") != "" {
+		fmt.Fprintf(os.Stderr, "slow query %.1fs -> %s; extra: %s\n", d.Seconds(), res, trunc(fmt.Sprint(extra), 600))
+	}
 	return res, model
 }
 
